@@ -803,5 +803,6 @@ pub fn run(seed: u64, tier: &str, w: &mut dyn Write) -> usize {
     o.line("subgroup", &[0], Some(f_out(&F::two_adic_subgroup(0))));
     let mut rr = r.fork();
     filter_cases(&mut o, &mut rr, thorough);
-    o.n
+    let extra = crate::c07d4::run(&mut r, tier, o.w);
+    o.n + extra
 }
